@@ -8,7 +8,10 @@ from odml.validation import Validation
 
 N = 99
 CARDS = {"none": None, "1to1": (1, 1), "max1": (None, 1), "min1": (1, None), "min3": (3, None), "1to2": (1, 2), "2to2": (2, 2)}
-VALS = {"text": ["alpha", "beta"], "ints": [1, 2], "empty": [], "one": ["alpha"]}
+T12 = "(" + ";".join(str(i) for i in range(12)) + ")"
+VALS = {"text": ["alpha", "beta"], "ints": [1, 2], "empty": [], "one": ["alpha"], "tup2": ["(1;2)", "(3;4)"], "tup12": [T12, T12],
+        "tup2bad": ["(1;2)", "(3;4)"], "tup12bad": [T12]}
+VDTYPE = {"tup2": "2-tuple", "tup12": "12-tuple", "tup2bad": "2-tuple", "tup12bad": "12-tuple"}
 TREE = {"s1": "d1", "s2": "d1", "s3": "s1", "p1": "s1", "p2": "s1", "p3": "s2", "p4": "s3"}
 ORDER = ["s1", "s2", "s3", "p1", "p2", "p3", "p4"]
 
@@ -21,7 +24,11 @@ def build(g):
         if h.startswith("s"):
             o = odml.Section(name=tmp, type="t")
         else:
-            o = odml.Property(name=tmp, values=list(VALS[spec["vals"]]))
+            o = odml.Property(name=tmp, values=list(VALS[spec["vals"]]), dtype=VDTYPE.get(spec["vals"]))
+            if spec["vals"] == "tup2bad":
+                o._values = [["1", "2"], ["1", "2", "3"]]          # planted: a value of another length
+            elif spec["vals"] == "tup12bad":
+                o._values = [["1"], [str(i) for i in range(12)]]
         objs[h] = o
         objs[TREE[h]].append(o)
     for h in ORDER:
